@@ -57,11 +57,15 @@ CHECKS = {
             "C02_index_is_view_index (in EVERY memory the item address the generated code computes is the address a Python view "
             "computes from the strides it caches - same constants, same header words - and for dynamically sized items the table entry "
             "stored there) and C02_array_item (on memory the writer produced, for every shape, axis order and valid index tuple that "
-            "address holds the item the constructor was given for the tuple's memory position). The tie compares the model's text with the real "
+            "address holds the item the constructor was given for the tuple's memory position), C02_field_address (the field step - a "
+            "class-level offset, or for the 2nd.. dynamically sized field the word loaded from its offset slot - lands on the field "
+            "where the writer placed it), C02_static_sizes_agree / C02_field_sizes_agree (the total translation toLay of the "
+            "reference-free types: both models size every type alike, so these theorems apply at every nesting level; composition "
+            "along a path by C01_part_is_written). The tie compares the model's text with the real "
             "_gen_c_api() byte for byte on random types and the IR semantics with the real compiled accessors on real objects.",
             "The C semantics of the printed statement forms is the trusted reading Stmt.exec, validated on every compiled accessor "
             "call of each run; that docAddr is also the address the Python view uses is a theorem for array indexing "
-            "(C02_index_is_view_index) and for struct fields / paths through references witnessed by the oracle (compiled vs Python "
+            "(C02_index_is_view_index) and struct fields (C02_field_address); for paths through references it is witnessed by the oracle (compiled vs Python "
             "accessor on the same object) and by leafAt executed against the library's slot addresses.",
             "7/C02"),
     "C07": ("Lean 4 proof: pointwise-update semantics of the generated setter and the complete load list of every accessor by "
